@@ -6,7 +6,7 @@
    params_ok p  =  pow2 avg && min <= avg && avg <= max        (check_rabin_params)
                    && PREFILL_SLICE <= min && BUF_SIZE - 1 <= min   (forced by the proof). *)
 From Verif.Base Require Import Tactics.
-From Verif.C06 Require Import Extracted Model Spec ListLemmas Proofs Proofs2 Proofs3 Proofs4.
+From Verif.C06 Require Import Extracted Model Spec ListLemmas Proofs Proofs2 Proofs3 Proofs4 Proofs5.
 Local Open Scope N_scope.
 
 (* For EVERY read schedule (1-byte reads, short reads, Interrupted, any mixture), every size
@@ -105,3 +105,14 @@ Theorem fixed_size_zero_refuted :
   exists s, s <> [] /\ forall hint sched, fixed_impl 0 hint s sched = Some [].
 Proof. exact fixed_size_zero_refuted_lemma. Qed.
 Print Assumptions fixed_size_zero_refuted.
+
+(* rolling_equals_recompute, PARTIAL (full statement and the gap: Proofs5.v, NOTES.md): if the
+   mod table appends a byte to a reduced value correctly and the out table removes the oldest
+   window byte correctly (single steps), then the hash of EVERY window the chunker has is the
+   direct reduction modulo P of the window bytes read as a polynomial over GF(2). *)
+Theorem rolling_equals_recompute_partial : forall T P,
+  step_append_ok T P -> step_out_ok T P -> 0 < t_wsize T ->
+  forall bs xs, Forall isbyte bs -> Forall isbyte xs -> length bs = (N.to_nat (t_wsize T) - 1)%nat ->
+    let w := fold_left (a_slide T) xs (a_init T bs) in a_hash w = fp_direct P (a_fifo w).
+Proof. exact rolling_partial_lemma. Qed.
+Print Assumptions rolling_equals_recompute_partial.
